@@ -30,6 +30,7 @@ def main():
     out = {"seed": os.path.basename(sd), "property": meta.get("property"), "at": time.strftime("%Y-%m-%d %H:%M"), "repo_head": sh("git -C /repo log --format=%h -1")[1].strip()}
     try:
         pkg = "./mux" if "package mux" in open(os.path.join(sd, "demo_test.go")).read() else "."
+        racef = "-race " if meta.get("property") == "C19" else ""
         demo_dst = os.path.join(wt, "mux" if pkg == "./mux" else "", "zz_demo_test.go")
         def demo():
             shutil.copy(os.path.join(sd, "demo_test.go"), demo_dst)
@@ -37,7 +38,7 @@ def main():
             os.remove(demo_dst)
             return rc, o
         if not a.skip_demo:
-            rc0, o0 = sh("cp %s %s && go test -vet=off -count=1 -timeout 120s -run 'Demo|Seed|Bug' %s; rc=$?; rm -f %s; exit $rc" % (os.path.join(sd, "demo_test.go"), demo_dst, pkg, demo_dst), cwd=wt)
+            rc0, o0 = sh("cp %s %s && go test -vet=off -count=1 -timeout 300s %s-run 'Demo|Seed|Bug' %s; rc=$?; rm -f %s; exit $rc" % (os.path.join(sd, "demo_test.go"), demo_dst, racef, pkg, demo_dst), cwd=wt)
             out["demo_clean_tree_rc"] = rc0
         rc, o = sh("git apply %s" % os.path.join(sd, "patch.diff"), cwd=wt)
         if rc != 0:
@@ -49,7 +50,7 @@ def main():
         rc, o = sh("go build ./...", cwd=wt)
         out["builds"] = rc == 0
         if not a.skip_demo:
-            rc1, o1 = sh("cp %s %s && go test -vet=off -count=1 -timeout 120s -run 'Demo|Seed|Bug' %s; rc=$?; rm -f %s; exit $rc" % (os.path.join(sd, "demo_test.go"), demo_dst, pkg, demo_dst), cwd=wt)
+            rc1, o1 = sh("cp %s %s && go test -vet=off -count=1 -timeout 300s %s-run 'Demo|Seed|Bug' %s; rc=$?; rm -f %s; exit $rc" % (os.path.join(sd, "demo_test.go"), demo_dst, racef, pkg, demo_dst), cwd=wt)
             out["demo_patched_tree_rc"] = rc1
             out["demo_patched_tail"] = o1[-600:]
         if not a.skip_suite:
